@@ -2153,15 +2153,20 @@ def delegation_remove_all(a: A, ctx):
                 continue
             it, itn, fo = query
             # the query: self(key, **kwargs) / self.tasks(key, **kwargs)
-            def query_form(x):
-                return isinstance(x, ast.Call) and (a.is_self(f, x.func) if single else
-                                                    (isinstance(x.func, ast.Attribute) and x.func.attr == 'tasks' and a.is_self(f, x.func.value)))
+            def query_form(x, at=None):
+                if not isinstance(x, ast.Call):
+                    return False
+                fn_ = x.func
+                if isinstance(fn_, ast.Name) and not a.is_self(f, fn_):
+                    # the searchable list hoisted into a local first: `all_tasks = self.tasks; all_tasks(key, **kwargs)`
+                    fn_ = resolve(f, fn_, at if at is not None else itn)[0]
+                return a.is_self(f, fn_) if single else (isinstance(fn_, ast.Attribute) and fn_.attr == 'tasks' and a.is_self(f, fn_.value))
             okq = query_form(it)
             qname = None
             if not okq and isinstance(it, ast.Name) and itn is not None:
                 # one query per branch of a test on the key (`if key is None: q = self(**kw) elif callable(key): q = self(key, **kw)`)
                 vs = _value_variants(f, it, itn)
-                if len(vs) > 1 and all(query_form(v0) and n0 is not None for v0, n0 in vs):
+                if len(vs) > 1 and all(n0 is not None and query_form(v0, n0) for v0, n0 in vs):
                     verdicts = []
                     for v0, n0 in vs:
                         conds = [(strip_not(t0, p0)) for t0, p0, _ in _raw_atoms(f, n0)]
@@ -3143,6 +3148,21 @@ def append_last(a: A, ctx):
             if not any(match(f"{P} is None", at) and pol or match(f"{P} is not None", at) and not pol for at, pol, _ in atoms):
                 o.refute(f, c, c, "the task is moved under the sentinel although a parent was given")
                 bad = True
+        # the same hand-over written as the assignment that the sentinel's `children.append(self)` performs:
+        # `self.parent = self.__wbs._root()` (the recursive call takes the given-parent path with the sentinel as parent)
+        for e in evs:
+            if e.kind == 'setter' and e.name == 'parent' and isinstance(e.stmt, ast.Assign) and len(e.stmt.targets) == 1 and \
+                    isinstance(e.node, ast.Attribute) and a.is_self(f, e.node.value):
+                v = a.xp(f, e.stmt.value, e.cn)
+                if not (match("self._Task__wbs._root()", v) or match("self._Task__wbs._WBS__root", v)):
+                    continue       # any other re-assignment of the own parent is left to `leftovers`
+                e.used = True
+                atoms = path_atoms(a, f, e.cn)
+                if not any(match(f"{P} is None", at) and pol or match(f"{P} is not None", at) and not pol for at, pol, _ in atoms):
+                    o.refute(f, e.stmt, e.stmt, "the task is moved under the sentinel although a parent was given")
+                    bad = True
+                    continue
+                roots.append(e)
         if bad:
             return
         for e in evs:      # WBS membership bookkeeping of the moved task itself (C11 decides what it must be)
@@ -3672,6 +3692,125 @@ def _iterations_of(f, name):
     return out
 
 
+def _working_copy(a: A, f, st):
+    """`W = self._list.copy()` ... `W.remove(t)` / `W.insert(i, t)` / `W.index(x)` ... `self._list[:] = W` (store outside every
+    loop, W used for nothing else): the edits of the working copy are the edits of the shared list, published in one step.
+    -> (W, [synthetic write events of the remove / insert calls]) or None"""
+    v = st.node.value
+    if not isinstance(v, ast.Name) or v.id in f.params:
+        return None
+    W = v.id
+    fl, cfg = flow_of(f), cfg_of(f)
+    ds = fl.defs_of(W)
+    if len(ds) != 1 or ds[0].kind != 'assign' or ds[0].value is None or ds[0].node is None:
+        return None
+    d = ds[0]
+    t = norm_list(d.value)
+    if not (is_plain_copy(t) and a.is_self_attr(f, list_source(t), LIST)):
+        return None
+    if st.cn is None or not cfg.dominates(d.node, st.cn) or cfg.enclosing_fors(d.node) or cfg.enclosing_fors(st.cn):
+        return None
+    par = {}
+    for n in ast.walk(f.node):
+        for c in ast.iter_child_nodes(n):
+            par[id(c)] = n
+    from sa.effects import Write
+    out = []
+    for n in ast.walk(f.node):
+        if not (isinstance(n, ast.Name) and n.id == W):
+            continue
+        if not isinstance(n.ctx, ast.Load):
+            if isinstance(n.ctx, ast.Store) and par.get(id(n)) is d.stmt:
+                continue
+            return None
+        if n is v:
+            continue
+        p = par.get(id(n))
+        c = par.get(id(p)) if p is not None else None
+        if not (isinstance(p, ast.Attribute) and p.value is n and isinstance(c, ast.Call) and c.func is p and
+                p.attr in ('remove', 'insert', 'index')):
+            return None
+        cn = cfg.node_containing(c)
+        if cn is None or not cfg.dominates(d.node, cn):
+            return None
+        if p.attr == 'index':
+            continue
+        if cfg.can_reach(st.cn, cn) or not cfg.can_reach(cn, st.cn):
+            return None
+        out.append(Ev('write', c, cn, LIST, w=Write(LIST, 'self', c, f, 'mutate:' + p.attr, p.value, 'list')))
+    return W, out
+
+
+def _given_sequence(f, e, at, depth=0):
+    """e denotes the elements of parameter 1 with every occurrence kept (possibly reordered): the parameter, `_to_list(p)`,
+    list(p) / tuple(p) / p[:] / p[::-1] / reversed(p) / p.copy(), through locals with one or several plain assignments"""
+    if depth > 8 or e is None:
+        return False
+    if isinstance(e, ast.Name):
+        if at is None:
+            return False
+        ds = flow_of(f).reaching(e.id, at)
+        if not ds:
+            return False
+        for d in ds:
+            if d.kind == 'param':
+                if e.id != f.params[1]:
+                    return False
+            elif d.kind != 'assign' or d.value is None or d.node is None or d.node is at or \
+                    not _given_sequence(f, d.value, d.node, depth + 1):
+                return False
+        return True
+    if isinstance(e, ast.Call) and isinstance(e.func, ast.Name) and e.func.id in ('_to_list', 'list', 'tuple', 'reversed') and \
+            len(e.args) == 1 and not e.keywords:
+        return _given_sequence(f, e.args[0], at, depth + 1)
+    if isinstance(e, ast.Call) and isinstance(e.func, ast.Attribute) and e.func.attr == 'copy' and not e.args:
+        return _given_sequence(f, e.func.value, at, depth + 1)
+    if isinstance(e, ast.Subscript) and isinstance(e.slice, ast.Slice) and e.slice.lower is None and e.slice.upper is None:
+        return _given_sequence(f, e.value, at, depth + 1)
+    return False
+
+
+def _splice_repeats(a: A, o, f, st, what) -> bool:
+    """`rest = [t for t in self._list if t not in tasks]` ... `self._list[:] = rest[:pos] + tasks + rest[pos:]` with `tasks` the
+    argument sequence as given: every OCCURRENCE of a task in the argument is spliced in, so a task named twice is listed
+    twice (the documented remove-then-insert round per task lists it once). Reports and returns True for exactly that shape."""
+    v, vn, _ = resolve(f, st.node.value, st.cn)
+    t = norm_list(v)
+    if t[0] != 'concat' or len(t[1]) != 3 or any(p[0] != 'ref' for p in t[1]):
+        return False
+    head, mid, tail = (p[1] for p in t[1])
+
+    def cut(e, lower):
+        if isinstance(e, ast.Subscript) and isinstance(e.slice, ast.Slice) and e.slice.step is None and isinstance(e.value, ast.Name):
+            lo, up = e.slice.lower, e.slice.upper
+            if lower and lo is not None and up is None:
+                return e.value, lo
+            if not lower and lo is None and up is not None:
+                return e.value, up
+        return None
+    h, tl = cut(head, False), cut(tail, True)
+    if h is None or tl is None or not same(h[0], tl[0]) or not same(h[1], tl[1]):
+        return False
+    r, rn, hops = resolve(f, h[0], vn)
+    rt = norm_list(r)
+    if not hops or rt[0] != 'filter' or not rt[2] or len(rt[3]) != 1 or not a.is_self_attr(f, list_source(rt), LIST):
+        return False
+    c = rt[3][0]
+    if not (isinstance(c, ast.Compare) and len(c.ops) == 1 and isinstance(c.ops[0], ast.NotIn) and isinstance(c.left, ast.Name)
+            and c.left.id == rt[2]):
+        return False
+    if not (_given_sequence(f, c.comparators[0], rn) and _given_sequence(f, mid, vn)):
+        return False
+    for n in ast.walk(f.node):      # anything that may reject or drop repeated tasks beforehand: not judged here
+        if isinstance(n, ast.Call) and ((isinstance(n.func, ast.Name) and n.func.id in ('set', 'frozenset', 'Counter', 'len')) or
+                                        (isinstance(n.func, ast.Attribute) and n.func.attr in ('fromkeys', 'count'))):
+            return False
+    o.refute(f, st.node, st.node, f"{what}: the argument sequence `{src(mid)}` is spliced into the list as it was given "
+                                  f"(`{src(st.node.value)[:70]}`): a task that is named twice in the call is listed twice afterwards; "
+                                  f"documented: each task is removed and re-inserted next to the anchor, so it is listed once")
+    return True
+
+
 @part
 def move_index(a: A, ctx):
     o = ctx.ob('move_index', 'R8',
@@ -3687,6 +3826,16 @@ def move_index(a: A, ctx):
         if not all([_publish_ok(a, o, f, e, what) for e in evs if e.kind == 'publish']):
             return
         ws = [e for e in evs if e.kind == 'write' and e.w.field == LIST and a.is_self(f, e.w.recv)]
+        work, work_store = None, None
+        if len(ws) == 1 and _full_slice_store(a, f, ws[0].w):
+            wc = _working_copy(a, f, ws[0])
+            if wc is not None:
+                # the new order is prepared in a working copy of the list and written back in place in one step
+                work, work_store = wc[0], ws[0]
+                work_store.used = True
+                ws = wc[1]
+            elif _splice_repeats(a, o, f, ws[0], what):
+                return
         rems = [e for e in ws if e.w.kind == 'mutate:remove']
         inss = [e for e in ws if e.w.kind == 'mutate:insert']
         for e in ws:
@@ -3739,7 +3888,11 @@ def move_index(a: A, ctx):
                         o.undecided(f, c, c.args[0], f"{what}: insert position is not `list.index(anchor) + k`")
                     return
                 L, anchor, off = p
-                if not _is_facade_list(a, f, a.xp(f, L, idn)):
+                if work is not None:
+                    in_edited = isinstance(L, ast.Name) and L.id == work
+                else:
+                    in_edited = _is_facade_list(a, f, a.xp(f, L, idn))
+                if not in_edited:
                     o.refute(f, c, c.args[0], f"{what}: anchor index is looked up in `{src(L)}`, not in the list being edited")
                     return
                 anchor, _, _ = resolve(f, anchor, idn)
@@ -3789,6 +3942,10 @@ def move_index(a: A, ctx):
         # every iteration inserts
         anchors = [guard_anchor(cfg, e.cn, cfg.node_of(enclosing_for_binding(f, e.cn, e.node.args[1].id))) for e in inss]
         if not a.must_pass(o, f, anchors, [], what):
+            return
+        if work_store is not None and escaping_path(cfg, {work_store.cn.id}):
+            o.refute(f, work_store.node, work_store.node, f"{what}: the new order is prepared in `{work}` but on some accepted path it is "
+                                                          f"never written back into the shared list")
             return
         for e in seen_anchor[B][:1] + seen_anchor[AF][:1]:
             o.site(f, e.node, src(e.node))
